@@ -126,8 +126,8 @@ def faults_for_key(key, bodies, upload_bodies, quick):
         out.append({'at': key, 'phase': 'before', 'kind': 'fatal_exc'})
     elif '/fs:' in key:
         out.append({'at': key, 'phase': 'before', 'kind': 'oserror'})
-    elif '/os:rename' in key:
-        out.append({'at': key, 'phase': 'before', 'kind': 'oserror'})  # the rename system call itself fails
+    elif '/os:rename' in key or '/os:open' in key:
+        out.append({'at': key, 'phase': 'before', 'kind': 'oserror'})  # the system call itself fails (rename; open of the temporary file)
     elif '/cb:on_queued' in key or '/cb:on_progress' in key:
         out.append({'at': key, 'phase': 'before', 'kind': 'exc'})
         out.append({'at': key, 'phase': 'before', 'kind': 'oserror'})
